@@ -126,6 +126,30 @@ def r15_3(ctx, fx):
                         ok = True
             ctx.ob("R15.3", "%s/Some-only-if-not-%s" % (short(key), nm), ok, site=fn.site(fn.entry), cfg=fx.cfg,
                    detail="filter must return Some(candidate) only over the false edge of the %s test applied to the candidate itself (such tests found: %d, Some sites: %d)" % (nm, len(cs), len(somes)))
+    # the same filter written as a `for` loop with `continue` guards inside register_response itself: the insertion into `candidates`
+    # plays the role of `Some(candidate)`, the loop item that of the closure argument
+    have = {re.sub(r"::register_response::\{closure#\d+\}$", "", k) for k in fx.find(r"^protocol::libp2p::kademlia::query::(find_node|get_record|get_providers)::\w+::register_response::\{closure#\d+\}$")
+            if "Option<protocol::libp2p::kademlia::types::KademliaPeer>" in fx.fn(k).ret}
+    for key in sorted(fx.find(r"^protocol::libp2p::kademlia::query::(find_node|get_record|get_providers)::\w+::register_response$")):
+        if re.sub(r"::register_response$", "", key) in have:
+            continue
+        fn = fx.fn(key)
+        somes = [c.node for c in fn.calls(r"BTreeMap(<.*>)?::insert$") if ".candidates" in fn.recv(c)]
+        if not somes:
+            continue
+        n += 1
+        ctx.bodies.add((fx.cfg, key))
+        item = lambda a: any(re.search(r"Iterator>?::next$|IntoIter", x) for x in guards.rootstrs(fn, a))
+        for rx, fld, nm in ((r"HashSet::contains$", "queried", "queried"), (r"HashMap::contains_key$", "pending", "pending"), (r"PartialEq.*::eq$", "local_peer_id", "local")):
+            cs = [c for c in fn.calls(rx) if fld in fn.recv(c) or any(fld in fn.origin(a) for a in c.args)]
+            cs = [c for c in cs if any(item(a) for a in c.args)]
+            ok = False
+            for c in cs:
+                for sw, t, f in fn.bool_tests(c.dest[0]):
+                    if all(fn.only_via(s_, sw, [f]) for s_ in somes):
+                        ok = True
+            ctx.ob("R15.3", "%s/Some-only-if-not-%s" % (short(key), nm), ok, site=fn.site(fn.entry), cfg=fx.cfg,
+                   detail="a candidate is inserted only over the false edge of the %s test applied to the loop item (such tests found: %d, insert sites: %d)" % (nm, len(cs), len(somes)))
     ctx.anchor("R15.3", "candidate filter closures", n, 3, cfg=fx.cfg)
 
 
